@@ -75,4 +75,4 @@ func genTimeUse(repo string) (*leanFile, error) {
 	return lf, nil
 }
 
-func init() { extraGens = append(extraGens, genTimeUse) }
+func init() { extraGens = append(extraGens, namedGen{"TimeUse.lean", genTimeUse}) }
